@@ -142,7 +142,8 @@ def _even(prog, rep):
     okr = bool(rk) and any(m.match(rk[0].value, t) for t in ('k - np.size(np.where(CIJp.flatten()))', 'k - np.sum(CIJp)', 'k - np.count_nonzero(CIJp)'))
     rep.ob('D.remaining-count', f, rk[0] if rk else 'rem_k', okr, 'remaining connections must be k minus the number of cluster connections', line=f.node.lineno)
     ab = [s for s in stmts if isinstance(s, ast.Assign) and isinstance(s.targets[0], ast.Tuple) and isinstance(s.value, ast.Call) and norm(s.value.func) == 'np.where']
-    oka = bool(ab) and any(m.match(ab[0].value.args[0], t) for t in ('np.logical_not(CIJp + np.eye(n))', 'np.logical_not(np.logical_or(CIJp, np.eye(n)))'))
+    oka = bool(ab) and any(m.match(ab[0].value.args[0], t) for t in ('np.logical_not(CIJp + np.eye(n))', 'np.logical_not(np.logical_or(CIJp, np.eye(n)))',
+                                                                         'CIJp + np.eye(n) == 0', 'np.logical_or(CIJp, np.eye(n)) == 0'))
     rep.ob('E.fill-cells-exclude-clusters-and-diagonal', f, ab[0] if ab else 'a, b = np.where(...)', oka,
            'random connections must be drawn from cells that are neither in a cluster nor on the diagonal', line=f.node.lineno)
     if ab:
